@@ -18,6 +18,35 @@ CLAIMED = {
             "independent exact oracle on the implementation's outputs.",
             "Lean 4 proof over ordered fields + exact (Fraction vs Rat) differential correspondence, exhaustive grid",
             "DESIGN.md §4 C03"),
+    "C04": ("Sentence 3 (a step over the limit is never reported as valid; the run stops there and is flagged) and the "
+            "form of the reported connector power are Lean theorems about a model of Scenario.run's loop in which the "
+            "strategy's effect is an arbitrary input, so they hold for all eight strategies; the loop model is run on the "
+            "recorded world states of real runs and compared bit-for-bit with the real totals/abort flag. Sentences 1-2 "
+            "(limit = min(rating, latest signal); no strategy breaks it) are decided per run by an independent oracle on "
+            "the real outputs of all strategies; genuine defects of five strategies are listed in known_findings.json.",
+            "Lean 4 proof (parametric run-loop monitor) + Float differential correspondence on recorded real runs + oracle on real runs",
+            "DESIGN.md §4 C04"),
+    "C05": ("Station monitor for every strategy and the clamp_power laws (non-negative, <= offered, keeps the station "
+            "within its maximum, minimum-power cut-off, monotone) are Lean theorems; clamp_power is compared exactly "
+            "(exhaustive rational grid) and the loop model bit-for-bit on recorded real runs. The strategy-specific "
+            "sentences (station maximum, vehicle curve, only connected stations, no discharge without V2G) are decided by "
+            "an oracle on real runs of all strategies; genuine defects are listed in known_findings.json.",
+            "Lean 4 proof (monitor + clamp laws) + exact/Float differential correspondence + oracle on real runs",
+            "DESIGN.md §4 C05"),
+    "C06": ("Reported connector power = curtailed sum of its loads (every strategy) and the self-discharge step (formula, "
+            "only lowers, never below zero) are Lean theorems; apply_battery_losses is compared exactly on a rational grid "
+            "and the loop model bit-for-bit on recorded real runs. The per-step energy bookkeeping of vehicles and "
+            "batteries (dSoC = P*dt*eta/c resp. /eta) is decided by a trace oracle on real runs of all strategies; the "
+            "battery-level identity it rests on is C01.",
+            "Lean 4 proof (sum identity, losses) + exact/Float differential correspondence + trace oracle on real runs",
+            "DESIGN.md §4 C06"),
+    "C17": ("Run shape for every strategy (at most n steps, one record per step, errors in event processing / strategy / "
+            "safety checks end the run with that step and flag it, no error means exactly n steps) is a Lean theorem about "
+            "the loop model (structural recursion, hence terminating); compared with real runs incl. injected faults. "
+            "Termination of the strategies' internal loops and of report generation is observed (watchdog, escaped "
+            "exceptions), not proved.",
+            "Lean 4 proof (run-loop shape, error latch) + differential correspondence with fault injection + watchdog",
+            "DESIGN.md §4 C17"),
 }
 
 PENDING_REASON = ("not claimed yet: model, theorems and correspondence for this property are still being built "
